@@ -11,7 +11,10 @@ MANIFEST = dict(
     technique="Lean 4 proof over a model regenerated from source by a translator + translation validation + correspondence run",
     design="5/C13",
 )
-GEN = ["Versions", "BatchSelfTest"]
+GEN = ["Versions"]
+SUPP_GEN = ["BatchSelfTest"]
+# not stated by the property text: Props/C13Supp.lean (reported as INFO, never a verdict)
+SUPP_THEOREMS = ["c13_selftest_translated", "c13_selftest_table_agrees"]
 THEOREMS = [
     "c13_translated",
     "c13_iff_before_cutoff",
@@ -28,8 +31,6 @@ THEOREMS = [
     "c13_bad_member_isolated",
     "c13_single_messages_unaffected",
     "c13_version_change_mid_connection",
-    "c13_selftest_translated",
-    "c13_selftest_table_agrees",
 ]
 RULE = (
     "decision: every string dddd-dd-dd (all 10^4 month/day digit pairs) of the years 2015..2035 (quick) / 1990..2199 "
@@ -133,6 +134,8 @@ class Decision(Suite):
 
         years = range(2015, 2036) if budget == "quick" else range(1990, 2200)
         out = [{"v": None}, {"v": ""}, {"selftest": 1}]
+        # a "version" of every JSON type (None / '' are in the property; the others are recorded, nothing is demanded)
+        out += [{"v": t, "typed": True} for t in (True, False, 0, 7, 20250618, 1.5, [], ["2025-06-18"], {}, {"v": "2025-06-18"})]
         out += [{"v": v} for v in SUPPORTED_VERSIONS]
         out += [{"v": v} for v in (
             "2025-06-17", "2025-06-18", "2025-06-19", "2025-05-31", "2025-07-01", "2025-05-99", "2025-06-00",
@@ -174,7 +177,20 @@ class Decision(Suite):
         from chuk_mcp.protocol.types.versioning import ProtocolVersion as PV, SUPPORTED_VERSIONS
 
         out = []
-        for c in cases:
+        from ..stdio_h import debug_logging
+
+        for n, c in enumerate(cases):
+            restore = debug_logging() if n % 4 == 3 else None  # a host with DEBUG logging: the f-string / warning branches are live
+            try:
+                out.append(self._impl_one(c, supports_batching, PV, SUPPORTED_VERSIONS))
+            finally:
+                if restore is not None:
+                    restore()
+        return out
+
+    def _impl_one(self, c, supports_batching, PV, SUPPORTED_VERSIONS):
+        out = []
+        for c in [c]:
             if "selftest" in c:  # the module's own printed self-test (its table is regenerated as Gen/BatchSelfTest.lean)
                 import contextlib, io
                 from chuk_mcp.protocol.features import batching as B
@@ -205,7 +221,7 @@ class Decision(Suite):
                     s = "raised:" + type(ex).__name__
                 out.append({"supports": s, "compare": _cmp_char(PV, v), "supported": v in SUPPORTED_VERSIONS,
                             "api": _api_obs(v)})
-        return out
+        return out[0]
 
     # ---------------------------------------------------------------- model
     def model_line(self, case):
@@ -214,7 +230,7 @@ class Decision(Suite):
         if "year" in case:
             return {"m": "versions", "year": case["year"]}
         v = case["v"]
-        if v is not None and not v.isascii():
+        if case.get("typed") or (v is not None and not v.isascii()):
             return None
         return {"m": "versions", "v": v}
 
@@ -303,6 +319,8 @@ class Decision(Suite):
                 if r is not None:
                     return r
             return None
+        if case.get("typed"):
+            return None
         return self._check_one(case["v"], o["supports"], o["compare"]) or (
             self._check_api(case["v"], o["supports"], o.get("api")) if (case["v"] is None or case["v"] == "" or WELL.match(case["v"])) else None)
 
@@ -313,6 +331,8 @@ class Decision(Suite):
             y = case["year"]
             return "year/" + ("before" if y < 2025 else "cutoff-year" if y == 2025 else "after")
         v = case["v"]
+        if case.get("typed"):
+            return "non-string-version/" + type(v).__name__
         if v is None or v == "":
             return "none"
         if WELL.match(v):
